@@ -514,8 +514,8 @@ static void h_op(void)
      * Markup buffers are allocated with exactly sq->salloc cells (the library's own convention), so ASan sees any access the library makes beyond them. */
     const char *init = h_arg("init"), *via = h_arg("via"), *xra = h_arg("xr"), *scr = h_arg("script");
     int dig = init && !strcmp(init, "digital"), add = via && !strcmp(via, "add"), x, nxr = 0; int64_t i, nss = 0;
-    unsigned char *b = h_unhex(h_arg("hex") ? h_arg("hex") : "-", &n), *ss = NULL; unsigned char *xrs[8]; ESL_SQ *sq = NULL;
-    char *out = NULL; size_t cap = 0, len = 0; char tmp[128]; int bad = 0;
+    unsigned char *b = h_unhex(h_arg("hex") ? h_arg("hex") : "-", &n), *ss = NULL; unsigned char *xrs[8]; ESL_SQ *sq = NULL, *P = NULL, *cur;
+    char *out = NULL; size_t cap = 0, len = 0; char tmp[128]; int bad = 0, pass;
     for (i = 0; i < n; i++) if (b[i] == (dig ? 255 : 0)) bad = 1;
     if (h_arg("ss")) { ss = h_unhex(h_arg("ss"), &nss); if (nss != n || (int64_t) strlen((char *) ss) != n) bad = 1; }
     if (xra) {
@@ -565,6 +565,12 @@ static void h_op(void)
           }
           sprintf(tmp, "a=%" PRId64 " ", sum);
         }
+        else if (!strcmp(tok, "p:text") || !strcmp(tok, "p:digital")) {
+          /* esl_sq_Copy into the persistent (reused) destination P */
+          if (!P) P = !strcmp(tok, "p:digital") ? esl_sq_CreateDigital(A) : esl_sq_Create();
+          st = esl_sq_Copy(sq, P); sprintf(tmp, "p=%s ", h_status(st));
+        }
+        else if (!strcmp(tok, "R")) { if (P) esl_sq_Reuse(P); sprintf(tmp, "R=ok "); }
         else if (!strcmp(tok, "c:text") || !strcmp(tok, "c:digital")) {
           ESL_SQ *dst = !strcmp(tok, "c:digital") ? esl_sq_CreateDigital(A) : esl_sq_Create();
           st = esl_sq_Copy(sq, dst); sprintf(tmp, "c=%s ", h_status(st));
@@ -575,6 +581,9 @@ static void h_op(void)
       }
       free(dup);
     }
+    for (pass = 0, cur = sq; pass < 2 && cur; pass++, cur = P) {
+    ESL_SQ *sq_saved = sq; sq = cur;
+    if (pass) out = bufcat(out, &cap, &len, " || P: ");
     sprintf(tmp, "mode=%s n=%" PRId64 " salloc=%" PRId64 " seq=", sq->seq ? "text" : "digital", sq->n, sq->salloc); out = bufcat(out, &cap, &len, tmp);
     out = bufcat(out, &cap, &len, sq->seq ? h_hex(sq->seq, sq->n) : h_hex(sq->dsq + 1, sq->n));
     if (sq->seq ? sq->seq[sq->n] != '\0' : (sq->dsq[0] != eslDSQ_SENTINEL || sq->dsq[sq->n + 1] != eslDSQ_SENTINEL)) out = bufcat(out, &cap, &len, "!unterminated");
@@ -591,10 +600,12 @@ static void h_op(void)
       out = bufcat(out, &cap, &len, h_hex(p_, (int64_t) strlen(p_)));
     }
     sprintf(tmp, " se=%" PRId64 ",%" PRId64, sq->start, sq->end); out = bufcat(out, &cap, &len, tmp);
+    sq = sq_saved;
+    }
     h_exception_seen = 0;
     h_out("%s", out);
    SQOBJ_DONE:
-    if (out) free(out); if (sq) esl_sq_Destroy(sq); free(b); if (ss) free(ss); for (x = 0; x < nxr; x++) free(xrs[x]);
+    if (out) free(out); if (sq) esl_sq_Destroy(sq); if (P) esl_sq_Destroy(P); free(b); if (ss) free(ss); for (x = 0; x < nxr; x++) free(xrs[x]);
   }
   else if (!strcmp(op, "dsqcpy")) {
     /* esl_abc_dsqcpy into an exact-size destination (L+2 codes) pre-filled with 0xEE */
